@@ -96,20 +96,22 @@ def run(tier, seed):
     # ... and schedules of the plain-map model (TableRef.tla, W = 10) on the real BlockCachedDatabase
     nsched = 300 if tier == "quick" else 5000
     raw = os.path.join(OUT, "tableref.txt")
-    r = tlc("TableRef.tla", "Sim_TableRef.cfg", "tableref", workers=4, timeout=900, simulate="num=%d" % (nsched // 4), seed=seed,
-            extra=["-depth", "70"], stdout_path=raw)
-    if r["error"] or r["violated"]:
-        raise ToolError("TableRef generation failed:\n" + common.tlc_tail(r))
     sp = os.path.join(OUT, "table_sched.ndjson")
     n = 0
     with open(sp, "w") as f:
-        for line in open(raw):
-            if line.startswith('<<"SCHED", '):
-                steps = json.loads(json.loads(line.strip()[len('<<"SCHED", '):-2]))
-                if steps:
-                    n += 1
-                    f.write(json.dumps({"run": n, "steps": steps}) + "\n")
-    os.remove(raw)
+        # the second configuration (Deep): few keys, idle stretches longer than the window, repeated rollbacks
+        for cfg, depth, share in (("Sim_TableRef.cfg", 70, 4), ("Sim_TableRef_deep.cfg", 130, 4)):
+            r = tlc("TableRef.tla", cfg, "tableref", workers=4, timeout=900, simulate="num=%d" % (nsched // share), seed=seed,
+                    extra=["-depth", str(depth)], stdout_path=raw)
+            if r["error"] or r["violated"]:
+                raise ToolError("TableRef generation failed:\n" + common.tlc_tail(r))
+            for line in open(raw):
+                if line.startswith('<<"SCHED", '):
+                    steps = json.loads(json.loads(line.strip()[len('<<"SCHED", '):-2]))
+                    if steps:
+                        n += 1
+                        f.write(json.dumps({"run": n, "steps": steps}) + "\n")
+            os.remove(raw)
     rep = os.path.join(OUT, "table_report.json")
     p = common.run_vh(["table", sp, rep], timeout=3000)
     if p.returncode == 2:
